@@ -394,7 +394,13 @@ func (cs *ContractSet) parseFile(pkgPath, filename string, lines []string, lineN
 		case "type-contract":
 			name := strings.TrimSpace(rest)
 			cur = &FuncContract{pkg: pkgPath, key: name, kind: "type", invs: map[int][]clause{}, pos: where, opts: map[string]string{}}
-			cs.types[pkgPath+"::"+name] = cur
+			if strings.Contains(name, "::") {
+				// a named type of a dependency, `<package path>::<Name>`: an assumed contract of foreign code
+				cs.types[name] = cur
+				cur.key = name[strings.LastIndex(name, "/")+1:]
+			} else {
+				cs.types[pkgPath+"::"+name] = cur
+			}
 			cs.order = append(cs.order, cur)
 			curLemma = nil
 		case "interface-contract":
